@@ -1680,8 +1680,8 @@ def rule_owner(ctx, classes=SKETCH_CLASSES):
                     a_ = v_.args[1].value
                 if a_ in ("shm", "existing_shm"):
                     alias[nm] = None if alias.get(nm, a_) != a_ else a_
-                elif not (isinstance(n.value, ast.Constant) and n.value.value is None) and nm in alias \
-                        and not (isinstance(v_, (ast.Name, ast.Call)) and alias.get(nm)):
+                elif not (isinstance(n.value, ast.Constant) and not n.value.value) and nm in alias \
+                        and not (isinstance(v_, (ast.Name, ast.Call)) and alias.get(nm)):      # (`= None` / `= False` in an except arm: no handle)
                     alias[nm] = None
 
         def attr_of(e):
@@ -1708,6 +1708,17 @@ def rule_owner(ctx, classes=SKETCH_CLASSES):
 
         def find_arms(stmts):
             for i_, n in enumerate(stmts):
+                # `try: if not self.X: return  except AttributeError: return` + the rest: the guard-clause spelling with the attribute
+                # test protected the way the original's outer try protects it
+                if isinstance(n, ast.Try) and not n.finalbody and not n.orelse and len(n.body) == 1 and isinstance(n.body[0], ast.If) \
+                        and not n.body[0].orelse and len(n.body[0].body) == 1 and isinstance(n.body[0].body[0], ast.Return) \
+                        and n.handlers and all(len(h_.body) == 1 and isinstance(h_.body[0], (ast.Return, ast.Pass)) for h_ in n.handlers) \
+                        and stmts[i_ + 1:]:
+                    t = n.body[0].test
+                    if isinstance(t, ast.UnaryOp) and isinstance(t.op, ast.Not) and attr_of(t.operand) in ("shm", "existing_shm") \
+                            and all(isinstance(h_.body[0], ast.Return) for h_ in n.handlers):
+                        arms[attr_of(t.operand)] = ast.copy_location(ast.If(test=t.operand, body=stmts[i_ + 1:], orelse=[]), n)
+                        continue
                 if isinstance(n, ast.If):
                     t = n.test
                     if attr_of(t) in ("shm", "existing_shm"):
